@@ -189,10 +189,12 @@ package starlark
 //@ specfn ifcmp(v int, f float) int = ite(isNaN(f), -1, ite(isInf(f), ite(isNeg(f), 1, -1), sign(real(v) - real(f))))
 //@ func Int.rational
 //@   prop C11 C10
+//@   modifies nothing
 //@   nopanic
 //@   ensures result != nil && result.val == real(val(i))
 //@ func Float.rational
 //@   prop C11 C10
+//@   modifies nothing
 //@   nopanic
 //@   ensures isFinite(f) ==> result != nil && result.val == real(f)
 //@ func sameType
@@ -201,7 +203,8 @@ package starlark
 //@   ensures sametag(x, y) ==> result
 //@   ensures (typeis(x, Int) && typeis(y, Float)) || (typeis(x, Float) && typeis(y, Int)) ==> !result
 //@ func CompareDepth
-//@   prop C11 C10
+//@   prop C11 C10 C06
+//@   modifies nothing
 //@   requires x != nil && y != nil && iscmp(op)
 //@   ensures int_float: depth >= 1 && typeis(x, Int) && typeis(y, Float) ==> err == nil && result0 == tw(op, ifcmp(val(as(x, Int)), as(y, Float)))
 //@   ensures float_int: depth >= 1 && typeis(x, Float) && typeis(y, Int) ==> err == nil && result0 == tw(op, -ifcmp(val(as(y, Int)), as(x, Float)))
@@ -255,3 +258,116 @@ package starlark
 //@   ensures pyslice: err == nil && isNone(step_) ==> result0 == slsel(x, ite(pycount(lo, hi, seqlen(x), 1) > 0, pystart(lo, seqlen(x), 1), 0), pycount(lo, hi, seqlen(x), 1), 1)
 //@   ensures pyslice_step: err == nil && !isNone(step_) ==> result0 == slsel(x, ite(pycount(lo, hi, seqlen(x), val(as(step_, Int))) > 0, pystart(lo, seqlen(x), val(as(step_, Int))), 0), pycount(lo, hi, seqlen(x), val(as(step_, Int))), val(as(step_, Int)))
 //@   ensures zero_step: !isNone(step_) && typeis(step_, Int) && val(as(step_, Int)) == 0 ==> err != nil
+
+// ---- mutability discipline (C04, C05, C06)
+// A store to a collection's storage is legal only while the collection is neither frozen
+// nor being iterated (objects allocated in the same activation are exempt: nobody else sees them yet).
+//@ protect [C04,C06] List.elems, List.elems[*] : !owner.frozen && owner.itercount == 0
+//@ protect [C05] List.itercount : !owner.frozen
+//@ monotone [C04] List.frozen : value == true
+//@ protect [C04,C06] hashtable.table, hashtable.len : !owner.frozen && owner.itercount == 0
+//@ protect [C05] hashtable.itercount : !owner.frozen
+//@ monotone [C04] hashtable.frozen : value == true
+// entries, buckets and the order links are only written inside hashtable methods, on a mutable table
+//@ protect [C04,C06] entry.hash, entry.key, entry.value, bucket.next, $mem:*starlark.entry, $mem:**starlark.entry : !ht.frozen && ht.itercount == 0
+
+//@ func List.checkMutable
+//@   prop C04 C06
+//@   requires l != nil
+//@   pure
+//@   nopanic
+//@   ensures result == nil <==> (!l.frozen && l.itercount == 0)
+//@ func hashtable.checkMutable
+//@   prop C04 C06
+//@   requires ht != nil
+//@   pure
+//@   nopanic
+//@   ensures result == nil <==> (!ht.frozen && ht.itercount == 0)
+
+// Frame contracts of the Value interface family. For implementations inside this module they
+// are obligations (impl:*), for host-defined types they are assumptions.
+//@ func Value.Hash
+//@   modifies nothing
+//@ func Value.Type
+//@   modifies nothing
+//@ func Value.String
+//@   modifies nothing
+//@ func Value.Truth
+//@   modifies nothing
+//@ func Comparable.CompareSameType
+//@   modifies nothing
+//@ func TotallyOrdered.Cmp
+//@   modifies nothing
+//@ func Equal
+//@   prop C06
+//@   requires x != nil && y != nil
+//@   modifies nothing
+//@ func EqualDepth
+//@   prop C06
+//@   requires x != nil && y != nil
+//@   modifies nothing
+//@ func Compare
+//@   prop C06
+//@   requires x != nil && y != nil && iscmp(op)
+//@   modifies nothing
+
+// ---- iteration (C06). g_open counts iterators acquired and not yet released by the
+// current activation; every function that acquires one must be balanced at every exit.
+//@ func Iterable.Iterate
+//@   prop C06
+//@   impls
+//@   modifies List.itercount, hashtable.itercount, g_open
+//@   ensures result != nil && g_open == old(g_open) + 1
+//@   ensures only(List.itercount, self) && only(hashtable.itercount, sub(self, 0))
+//@ func Iterator.Done
+//@   prop C06
+//@   modifies List.itercount, hashtable.itercount, g_open
+//@   ensures g_open == old(g_open) - 1
+//@ func Iterator.Next
+//@   modifies *p
+//@ func Iterate
+//@   prop C06
+//@   requires x != nil
+//@   modifies List.itercount, hashtable.itercount, g_open
+//@   ensures result != nil ==> g_open == old(g_open) + 1 && only(List.itercount, x) && only(hashtable.itercount, sub(x, 0))
+//@   ensures result == nil ==> g_open == old(g_open) && unchanged(List.itercount) && unchanged(hashtable.itercount)
+//@   ensures result == nil <==> !typeis(x, Iterable)
+
+//@ func List.Iterate
+//@   prop C06 C05
+//@   requires l != nil
+//@   modifies l.itercount
+//@   ensures result != nil
+//@   ensures old(l.frozen) ==> l.itercount == old(l.itercount)
+//@   ensures !old(l.frozen) ==> l.itercount == wrapu32(old(l.itercount) + 1)
+//@ func listIterator.Done
+//@   prop C06 C05
+//@   requires it != nil && it.l != nil
+//@   modifies it.l.itercount
+//@   ensures it.l.frozen ==> it.l.itercount == old(it.l.itercount)
+//@   ensures !it.l.frozen ==> it.l.itercount == wrapu32(old(it.l.itercount) - 1)
+//@ func hashtable.iterate
+//@   prop C06 C05
+//@   requires ht != nil
+//@   modifies ht.itercount
+//@   ensures result != nil && result.ht == ht
+//@   ensures old(ht.frozen) ==> ht.itercount == old(ht.itercount)
+//@   ensures !old(ht.frozen) ==> ht.itercount == wrapu32(old(ht.itercount) + 1)
+//@ func keyIterator.Done
+//@   prop C06 C05
+//@   requires it != nil && it.ht != nil
+//@   modifies it.ht.itercount
+//@   ensures it.ht.frozen ==> it.ht.itercount == old(it.ht.itercount)
+//@   ensures !it.ht.frozen ==> it.ht.itercount == wrapu32(old(it.ht.itercount) - 1)
+
+//@ func hashtable.init
+//@   prop C04 C06
+//@   requires ht != nil && !ht.frozen && ht.itercount == 0
+//@ func hashtable.grow
+//@   prop C04 C06
+//@   requires ht != nil && !ht.frozen && ht.itercount == 0
+//@ func listExtend
+//@   prop C04 C06
+//@   requires x != nil && y != nil && !x.frozen && x.itercount == 0
+//@   invariant 1 !x.frozen && x.itercount == 0
+//@   ensures [C06] g_open == old(g_open)
